@@ -111,8 +111,8 @@ fn dk(v: &[i128], i: usize) -> DurationKind {
         DurationKind::Finite(Duration::new(v[i + 1] as i32, v[i + 2] as u32))
     }
 }
-fn len(v: i128) -> Length {
-    if v < 0 { Length::Unlimited } else { Length::Limited(v as i32) }
+fn len(t: &str) -> Length {
+    if t == "u" { Length::Unlimited } else { Length::Limited(t.parse::<i64>().unwrap() as i32) }
 }
 fn blob(toks: &[&str]) -> Vec<u8> {
     // "fill <len> <byte>" | "hex <hex>"
@@ -176,9 +176,9 @@ fn enc(toks: &[&str]) -> String {
             kind: if v[0] == 0 { HistoryQosPolicyKind::KeepLast(v[1] as u32) } else { HistoryQosPolicyKind::KeepAll },
         }),
         "reslimits" => body(ResourceLimitsQosPolicy {
-            max_samples: len(v[0]),
-            max_instances: len(v[1]),
-            max_samples_per_instance: len(v[2]),
+            max_samples: len(toks[1]),
+            max_instances: len(toks[2]),
+            max_samples_per_instance: len(toks[3]),
         }),
         "partition" => body(PartitionQosPolicy {
             name: toks[1..].iter().map(|t| String::from_utf8(hex(t)).unwrap()).collect(),
